@@ -170,6 +170,16 @@ func boundedSize(v value) int64 {
 
 // Choice forks n ways and returns the concrete alternative.
 func (e *Engine) Choice(name string, n int) int {
+	k := e.choice(name, n)
+	switch name {
+	case "sched", "maporder", "select", "crash", "fault":
+	default:
+		e.choiceSig = append(e.choiceSig, fmt.Sprintf("%s=%d", name, k))
+	}
+	return k
+}
+
+func (e *Engine) choice(name string, n int) int {
 	if n <= 1 {
 		e.counts[name]++ // keep occurrence numbering aligned with the native intrinsics
 		return 0
@@ -312,6 +322,10 @@ func init() {
 			}
 			return a[0]
 		},
+		// verifAmplify: 1 here; in the native race-confirmation run a replication factor by which a
+		// harness may repeat its (already chosen) rows so that the Go race detector gets enough
+		// concurrent work to observe the race the engine found on the small instance
+		"verifAmplify":    func(fr *frame, a []value) value { return int(1) },
 		"verifMapOrder":   func(fr *frame, a []value) value { PermuteMaps = a[0].(bool); return nil },
 		"verifSchedules":  func(fr *frame, a []value) value { ExploreSchedules = a[0].(bool); return nil },
 		"verifRaces": func(fr *frame, a []value) value { RaceOn = a[0].(bool); return nil },
